@@ -41,7 +41,8 @@ COMPILERS = ["fock", "gaussian", "bosonic"]
 MESHES = ["rectangular", "rectangular_phase_end", "rectangular_symmetric", "triangular", "rectangular_compact",
           "triangular_compact", "sun_compact"]
 UKINDS = ["haar", "haar", "identity", "identity_c", "antiidentity", "perm", "perm_real", "perm_phase", "diag_phase",
-          "diag_pm", "block", "block_perm", "givens2", "real_orth", "near_identity"]
+          "diag_pm", "block", "block_perm", "givens2", "real_orth", "near_identity", "real_orth_float", "diag_pm_float",
+          "minus_identity_float"]
 
 
 def unitary(rs, n, kind):
@@ -49,6 +50,12 @@ def unitary(rs, n, kind):
         return d17.givens_product(rs, n, 2) if n >= 2 else np.identity(1, dtype=complex)
     if kind == "real_orth":
         return d17.rand_orth(rs, n).astype(complex)
+    if kind == "real_orth_float":       # real dtype: the factors start out real-valued
+        return d17.rand_orth(rs, n)
+    if kind == "diag_pm_float":
+        return np.diag(rs.choice([1.0, -1.0], n))
+    if kind == "minus_identity_float":
+        return -np.identity(n)
     if kind == "near_identity":     # exp(i eps H) around the tolerance of the `identity` shortcut (1e-13) and well above it
         from scipy.linalg import expm
         H = rs.standard_normal((n, n)) + 1j * rs.standard_normal((n, n))
@@ -333,7 +340,7 @@ def corr_mesh(ctx, sf):
     tol = float(ops._decomposition_tol)
     cases, reqs = [], []
     for it in range(ctx.n(250, 5000)):
-        m = rng.randint(2, 6)
+        m = rng.randint(1, 6)
         big = m + rng.choice([0, 1, 2, 8])
         prog = sf.Program(big)
         regidx = rng.sample(range(big), m)
@@ -387,7 +394,7 @@ def corr_mesh(ctx, sf):
                 req = dict(op="c02.mesh", kind="interferometer", reg=regidx, tol=dec02.fr(tol), identity=ident,
                            drop_identity=drop, symmetric="symmetric" in mesh, triangular=(mesh == "triangular"),
                            BS1=[[int(a), int(b), dec02.fr(t), dec02.fr(p)] for a, b, t, p, _ in BS1],
-                           R=[(dec02.fr(np.log(e).imag) if abs(e - 1) >= tol else None) for e in R])
+                           R=[(dec02.fr(math.atan2(float(np.imag(e)), float(np.real(e)))) if abs(e - 1) >= tol else None) for e in R])
                 if BS2 is not None:
                     req["BS2"] = [[int(a), int(b), dec02.fr(t), dec02.fr(p)] for a, b, t, p, _ in BS2]
         except ValueError as e:
@@ -616,8 +623,8 @@ def oracle_interferometer(ctx, sf):
     it = 0
     for mesh in MESHES:
         for drop in (True, False):
-            for m in range(3 if mesh == "sun_compact" else 2, 7):
-                kinds = UKINDS if ctx.tier != "quick" else [UKINDS[(it + j) % len(UKINDS)] for j in range(0, 12, 3)] + ["near_identity"]
+            for m in range(3 if mesh == "sun_compact" else 1, 7):
+                kinds = UKINDS if ctx.tier != "quick" else [UKINDS[(it + j) % len(UKINDS)] for j in range(0, 12, 3)] + ["near_identity", "diag_pm_float", "minus_identity_float"]
                 for kind in kinds:
                     it += 1
                     U = unitary(rs, m, kind)
@@ -1341,6 +1348,182 @@ def oracle_options(ctx, sf):
         compiler_options_case(ctx, sf, spec, cname, rp)
 
 
+# ------------------------------------------------------------------ option history: one object, changing options
+
+def rand_kwargs(rng, cls, k):
+    """keywords `cls._decompose` reads, drawn afresh for every call"""
+    kw = {}
+    meshes = MESHES if k >= 3 else MESHES[:6]
+    if cls == "Interferometer":
+        if rng.random() < 0.85:
+            kw["mesh"] = rng.choice(meshes)
+        if rng.random() < 0.4:
+            kw["drop_identity"] = rng.random() < 0.5
+        if rng.random() < 0.3:
+            kw["tol"] = rng.choice([1e-5, 1e-7, 1e-6])
+    elif cls in ("GraphEmbed", "GaussianTransform"):
+        if rng.random() < 0.85:
+            kw["mesh"] = rng.choice(meshes[:6])
+    elif cls == "BipartiteGraphEmbed":
+        if rng.random() < 0.8:
+            kw["mesh"] = rng.choice(MESHES[:6] if k >= 6 else MESHES[:4] + MESHES[4:6])
+        if rng.random() < 0.4:
+            kw["drop_identity"] = rng.random() < 0.5
+        if rng.random() < 0.3:
+            kw["tol"] = rng.choice([1e-5, 1e-7])
+        if rng.random() < 0.4:
+            kw["mean_photon_per_mode"] = rng.choice([0.2, 0.5, 1.0])
+    return kw
+
+
+def deep_unitary(cmds, pos, m, kw, depth=0):
+    """unitary of a passive command list, expanding nested Interferometers with their own defaults"""
+    flat = []
+    for c in cmds:
+        if type(c.op).__name__ == "Interferometer" and depth < 3:
+            flat += c.op.decompose(c.reg)
+        else:
+            flat.append(c)
+    return dec02.circuit_unitary(flat, m, pos)
+
+
+def option_history_case(ctx, sf, op, calls, big, rp):
+    """ONE operation object decomposed several times with different targets AND different options (A, B, A, ...): every
+    call equals the decomposition of a freshly built equal object with the same options, and (Interferometer) is U"""
+    name = op["cls"]
+    prog = dec02.build_prog(dict(n=big, ops=[]))
+    try:
+        o = dec02.build_prog(dict(n=big, ops=[dict(op, regs=calls[0][0])])).circuit[0].op
+        before = snapshot_op(o)
+        outs = []
+        for regs, kw in calls:
+            outs.append(o.decompose([prog.register[i] for i in regs], **kw))
+        after = snapshot_op(o)
+        wants = []
+        for regs, kw in calls:
+            f = dec02.build_prog(dict(n=big, ops=[dict(op, regs=regs)])).circuit[0].op
+            wants.append(f.decompose([prog.register[i] for i in regs], **kw))
+    except ValueError:
+        ctx.tally("option-history:factorisation-rejected-input")
+        return
+    except Exception as e:  # noqa: BLE001
+        ctx.fail(f"raises:option-history:{name}:{type(e).__name__}", f"{name}.decompose raised {type(e).__name__}: {e}", rp)
+        return
+    ctx.oracle_cases += 1
+    if before != after:
+        ctx.fail(f"history:{name}:decompose-modifies-the-operation", f"{name}.decompose changed the visible fields of the operation", rp)
+        return
+    for i, ((regs, kw), out, want) in enumerate(zip(calls, outs, wants)):
+        if name == "Interferometer":
+            U = np.asarray(dec02.dec(op["pars"][0]), dtype=complex)
+            pos = {r: j for j, r in enumerate(regs)}
+            W = deep_unitary(out, pos, len(regs), kw)
+            err = float(np.max(np.abs(W - U)))
+            if err > 1e-8:
+                ctx.fail("option-history:Interferometer:circuit-is-not-U",
+                         f"Interferometer on {regs}: decompose(**{kw}) as call #{i + 1} on one object (earlier calls used "
+                         f"{[c[1] for c in calls[:i]]}) gives a circuit that differs from U by {err:.3g}", rp)
+                return
+        if [content(c) for c in out] != [content(c) for c in want]:
+            prev = [c[1] for c in calls[:i]]
+            ctx.fail(f"option-history:{name}:call-depends-on-earlier-options",
+                     f"{name} on {regs}: decompose(**{kw}) as call #{i + 1} on one object (earlier calls used {prev}) differs from the "
+                     f"same call on a freshly built equal object", rp)
+            return
+
+
+def make_target(base, tables):
+    from strawberryfields.compilers import compiler_db
+    cls = compiler_db[base]
+
+    class Target(cls):      # pylint: disable=too-few-public-methods
+        short_name = base + "_c02"
+        decompositions = dict(cls.decompositions)
+    for k, v in tables.items():
+        Target.decompositions[k] = dict(v)
+    return Target()
+
+
+def table_history_case(ctx, sf, spec, base, tables_seq, rp):
+    """ONE circuit (shared operation objects) compiled by several targets in a row whose decompositions tables ask for
+    different options: every result equals what the same target makes of a freshly built circuit"""
+    try:
+        circuit = list(dec02.build_prog(spec, op_cache={}).circuit)
+        outs = [[content(c) for c in make_target(base, t).decompose(circuit)] for t in tables_seq]
+        wants = [[content(c) for c in make_target(base, t).decompose(list(dec02.build_prog(spec).circuit))] for t in tables_seq]
+    except ValueError:
+        ctx.tally("option-history:factorisation-rejected-input")
+        return
+    except Exception as e:  # noqa: BLE001
+        ctx.fail(f"raises:table-history:{type(e).__name__}", f"Compiler.decompose raised {type(e).__name__}: {e}", rp)
+        return
+    ctx.oracle_cases += 1
+    for i, (t, out, want) in enumerate(zip(tables_seq, outs, wants)):
+        if out != want:
+            ctx.fail("option-history:compiler-tables:result-depends-on-earlier-compilation",
+                     f"{base}: compiling one circuit with table options {t} as compilation #{i + 1} (earlier tables: {tables_seq[:i]}) "
+                     f"differs from compiling a freshly built equal circuit", rp)
+            return
+
+
+def oracle_option_history(ctx, sf):
+    rng, rs = ctx.rng, ctx.nprng(10)
+    for it in range(ctx.n(70, 1200)):
+        cls = ("Interferometer", "Interferometer", "GraphEmbed", "BipartiteGraphEmbed", "GaussianTransform", "Interferometer")[it % 6]
+        while True:
+            op = rand_matrix_op(rng, rs, 5)
+            if op["cls"] == cls:
+                break
+        k = len(op.pop("regs"))
+        if cls == "Interferometer":
+            op["pars"] = [dec02.enc(unitary(rs, k, rng.choice(["haar", "haar", "perm_phase", "block", "givens2", "diag_phase"])))]
+            op["kw"] = dict(mesh=rng.choice(MESHES if k >= 3 else MESHES[:6]), drop_identity=rng.random() < 0.5)
+        big = 13
+        ncalls = rng.choice([2, 3, 3, 4])
+        calls = []
+        for j in range(ncalls):
+            regs = rng.sample(range(big), k)
+            if j == 2:                      # A, B, A: the third call repeats the first one
+                calls.append((calls[0][0], dict(calls[0][1])))
+            else:
+                calls.append((regs, rand_kwargs(rng, cls, k)))
+        rp = dict(kind="option-history", op=op, calls=[[r, kw] for r, kw in calls], big=big)
+        ctx.count(f"option-history:{cls}", dict(o=str(op)[:300], c=str(calls)), True,
+                  sample=dict(cls=cls, own_options=op.get("kw"), calls=[kw for _, kw in calls]))
+        for _, kw in calls:
+            ctx.tally("option-history:call-mesh=" + str(kw.get("mesh", "(own)")))
+        option_history_case(ctx, sf, op, calls, big, rp)
+    for it in range(ctx.n(30, 400)):
+        base = ("gaussian", "fock")[it % 2]
+        n = 12
+        ops_ = []
+        for _ in range(rng.randint(1, 2)):
+            cls = rng.choice(["Interferometer", "Interferometer", "GraphEmbed", "GaussianTransform", "BipartiteGraphEmbed"])
+            while True:
+                o = rand_matrix_op(rng, rs, n)
+                if o["cls"] == cls:
+                    break
+            ops_.append(o)
+            if rng.random() < 0.5:          # the same operation object a second time, on other targets
+                ops_.append(dict(o, regs=rng.sample(range(n), len(o["regs"]))))
+        spec = dict(n=n, ops=ops_)
+        kmin = min(len(o["regs"]) for o in ops_)
+        seq = []
+        for j in range(rng.choice([2, 3, 3])):
+            if j == 2:
+                seq.append(seq[0])
+                continue
+            t = {}
+            for cls in {o["cls"] for o in ops_} | {"Interferometer"}:
+                kw = rand_kwargs(rng, cls, 2 if cls != "BipartiteGraphEmbed" else 4)   # meshes valid for every size
+                kw.pop("mean_photon_per_mode", None)
+                t[cls] = kw
+            seq.append(t)
+        rp = dict(kind="table-history", spec=spec, base=base, tables=seq)
+        ctx.count(f"option-history:compiler-tables:{base}", dict(s=str(spec)[:300], t=str(seq)), True)
+        table_history_case(ctx, sf, spec, base, seq, rp)
+
+
 # ================================================================== entry points
 
 def run_corpus(ctx, sf):
@@ -1365,6 +1548,7 @@ def run(ctx, sf):
     oracle_gaussian_prep(ctx, sf)
     oracle_matrix_ops(ctx, sf)
     oracle_history(ctx, sf)
+    oracle_option_history(ctx, sf)
     oracle_holes_sharing(ctx, sf)
     oracle_tolerance(ctx, sf)
     oracle_options(ctx, sf)
@@ -1401,6 +1585,10 @@ def replay_one(ctx, sf, rp):
         driver_history_case(ctx, sf, rp["spec"], rp["compiler"], rp)
     elif kind == "shared":
         compare_to_reference(ctx, sf, rp["spec"], rp["backend"], rp["hbar"], rp, "shared-holes:replay", "replay")
+    elif kind == "option-history":
+        option_history_case(ctx, sf, rp["op"], [(r, kw) for r, kw in rp["calls"]], rp["big"], rp)
+    elif kind == "table-history":
+        table_history_case(ctx, sf, rp["spec"], rp["base"], rp["tables"], rp)
     elif kind == "options":
         options_case(ctx, sf, rp["spec"], rp["kw"], rp)
     elif kind == "compiler-options":
